@@ -782,6 +782,116 @@ static void eval_c14(const Plan &p, Verdict &v, Agg *agg) {
 }
 
 // ================================================================================================
+// Scenario: C08 linear work (virtual CPU clock = libhtp basic blocks; plain -O2 build)
+// ================================================================================================
+
+static const char *C08_PATTERNS[] = {
+    "req_hdr_distinct", "req_hdr_same", "req_hdr_empty_value", "req_hdr_fold", "req_line_spaces", "req_chunk_lines", "req_empty_lines", "req_body_params",
+    "req_cookies", "req_multipart_parts", "res_hdr_distinct", "res_hdr_same", "res_hdr_fold", "res_chunk_lines", "res_ce_tokens", "res_empty_lines",
+    "pipelined_tx", "res_interim_100", "res_junk_cr", "req_junk_nul", "res_chunk_ext_long", "req_query_params", "res_hdr_lfcr", "req_body_unexpected_lines",
+    "res_body_unexpected_lines", "req_multipart_lines", "req_hdr_long_value", "res_hdr_nocolon"};
+static const int C08_NPAT = (int) (sizeof C08_PATTERNS / sizeof *C08_PATTERNS);
+
+// builds the two streams for pattern `pat` with repetition count k
+static void c08_streams(const std::string &pat, size_t k, Bytes &rq, Bytes &rs) {
+    rq.clear(); rs.clear();
+    auto rep = [&](Bytes &o, const char *fmt_with_i, size_t n) { for (size_t i = 0; i < n; i++) o += strfmt(fmt_with_i, (unsigned) i); };
+    const char *ok = "HTTP/1.1 200 OK\r\nContent-Length: 0\r\n\r\n";
+    if (pat == "req_hdr_distinct") { rq = "GET / HTTP/1.1\r\nHost: a\r\n"; rep(rq, "X-H%u: v\r\n", k); rq += "\r\n"; rs = ok; }
+    else if (pat == "req_hdr_same") { rq = "GET / HTTP/1.1\r\nHost: a\r\n"; for (size_t i = 0; i < k; i++) rq += "X-Same: v\r\n"; rq += "\r\n"; rs = ok; }
+    else if (pat == "req_hdr_empty_value") { rq = "GET / HTTP/1.1\r\nHost: a\r\n"; for (size_t i = 0; i < k; i++) rq += "X-E:\r\n"; rq += "\r\n"; rs = ok; }
+    else if (pat == "req_hdr_fold") { rq = "GET / HTTP/1.1\r\nHost: a\r\nX-F: v\r\n"; for (size_t i = 0; i < k; i++) rq += " c\r\n"; rq += "\r\n"; rs = ok; }
+    else if (pat == "req_line_spaces") { rq = "GET "; rq.append(std::min<size_t>(k, 17000), ' '); rq += "/ HTTP/1.1\r\nHost: a\r\n\r\n"; rs = ok; }
+    else if (pat == "req_chunk_lines") { rq = "POST / HTTP/1.1\r\nHost: a\r\nTransfer-Encoding: chunked\r\n\r\n"; for (size_t i = 0; i < k; i++) rq += "1\r\na\r\n"; rq += "0\r\n\r\n"; rs = ok; }
+    else if (pat == "req_empty_lines") { for (size_t i = 0; i < k; i++) rq += "\r\n"; rq += "GET / HTTP/1.1\r\nHost: a\r\n\r\n"; rs = ok; }
+    else if (pat == "req_body_params") { Bytes b; for (size_t i = 0; i < k; i++) b += "&a=b"; rq = strfmt("POST / HTTP/1.1\r\nHost: a\r\nContent-Type: application/x-www-form-urlencoded\r\nContent-Length: %zu\r\n\r\n", b.size()) + b; rs = ok; }
+    else if (pat == "req_cookies") { rq = "GET / HTTP/1.1\r\nHost: a\r\nCookie: a=b"; for (size_t i = 0; i < std::min<size_t>(k, 2900); i++) rq += "; c=d"; rq += "\r\n\r\n"; rs = ok; }
+    else if (pat == "req_multipart_parts") { Bytes b; for (size_t i = 0; i < k; i++) b += "--B\r\nContent-Disposition: form-data; name=\"a\"\r\n\r\nv\r\n"; b += "--B--\r\n"; rq = strfmt("POST / HTTP/1.1\r\nHost: a\r\nContent-Type: multipart/form-data; boundary=B\r\nContent-Length: %zu\r\n\r\n", b.size()) + b; rs = ok; }
+    else if (pat == "req_multipart_lines") { Bytes b = "--B\r\nContent-Disposition: form-data; name=\"a\"\r\n\r\n"; for (size_t i = 0; i < k; i++) b += "\r\n--"; b += "\r\n--B--\r\n"; rq = strfmt("POST / HTTP/1.1\r\nHost: a\r\nContent-Type: multipart/form-data; boundary=B\r\nContent-Length: %zu\r\n\r\n", b.size()) + b; rs = ok; }
+    else if (pat == "res_hdr_distinct") { rq = "GET / HTTP/1.1\r\nHost: a\r\n\r\n"; rs = "HTTP/1.1 200 OK\r\nContent-Length: 0\r\n"; rep(rs, "X-H%u: v\r\n", k); rs += "\r\n"; }
+    else if (pat == "res_hdr_same") { rq = "GET / HTTP/1.1\r\nHost: a\r\n\r\n"; rs = "HTTP/1.1 200 OK\r\nContent-Length: 0\r\n"; for (size_t i = 0; i < k; i++) rs += "X-Same: v\r\n"; rs += "\r\n"; }
+    else if (pat == "res_hdr_fold") { rq = "GET / HTTP/1.1\r\nHost: a\r\n\r\n"; rs = "HTTP/1.1 200 OK\r\nContent-Length: 0\r\nX-F: v\r\n"; for (size_t i = 0; i < k; i++) rs += " c\r\n"; rs += "\r\n"; }
+    else if (pat == "res_hdr_lfcr") { rq = "GET / HTTP/1.1\r\nHost: a\r\n\r\n"; rs = "HTTP/1.1 200 OK\r\nContent-Length: 0\r\n"; for (size_t i = 0; i < k; i++) rs += "X-Same: v\n\r"; rs += "\r\n\r\n"; }
+    else if (pat == "res_hdr_nocolon") { rq = "GET / HTTP/1.1\r\nHost: a\r\n\r\n"; rs = "HTTP/1.1 200 OK\r\nContent-Length: 0\r\n"; for (size_t i = 0; i < k; i++) rs += "nocolon\r\n"; rs += "\r\n"; }
+    else if (pat == "res_chunk_lines") { rq = "GET / HTTP/1.1\r\nHost: a\r\n\r\n"; rs = "HTTP/1.1 200 OK\r\nTransfer-Encoding: chunked\r\n\r\n"; for (size_t i = 0; i < k; i++) rs += "1\r\na\r\n"; rs += "0\r\n\r\n"; }
+    else if (pat == "res_chunk_ext_long") { rq = "GET / HTTP/1.1\r\nHost: a\r\n\r\n"; rs = "HTTP/1.1 200 OK\r\nTransfer-Encoding: chunked\r\n\r\n1;"; rs.append(std::min<size_t>(k, 17000), 'x'); rs += "\r\na\r\n0\r\n\r\n"; }
+    else if (pat == "res_ce_tokens") { rq = "GET / HTTP/1.1\r\nHost: a\r\n\r\n"; rs = "HTTP/1.1 200 OK\r\nContent-Length: 0\r\nContent-Encoding: gzip"; for (size_t i = 0; i < std::min<size_t>(k, 2500); i++) rs += ", gzip"; rs += "\r\n\r\n"; }
+    else if (pat == "res_empty_lines") { rq = "GET / HTTP/1.1\r\nHost: a\r\n\r\n"; for (size_t i = 0; i < k; i++) rs += "\r\n"; rs += ok; }
+    else if (pat == "pipelined_tx") { for (size_t i = 0; i < k; i++) { rq += "GET / HTTP/1.1\r\nHost: a\r\n\r\n"; rs += ok; } }
+    else if (pat == "res_interim_100") { rq = "GET / HTTP/1.1\r\nHost: a\r\n\r\n"; for (size_t i = 0; i < k; i++) rs += "HTTP/1.1 100 Continue\r\n\r\n"; rs += ok; }
+    else if (pat == "res_junk_cr") { rq = "GET / HTTP/1.1\r\nHost: a\r\n\r\n"; rs.append(k, '\r'); rs += ok; }
+    else if (pat == "req_junk_nul") { rq.append(std::min<size_t>(k, 17000), '\0'); rq += "\r\nGET / HTTP/1.1\r\nHost: a\r\n\r\n"; rs = ok; }
+    else if (pat == "req_query_params") { rq = "GET /?a=b"; for (size_t i = 0; i < std::min<size_t>(k, 4000); i++) rq += "&a=b"; rq += " HTTP/1.1\r\nHost: a\r\n\r\n"; rs = ok; }
+    else if (pat == "req_body_unexpected_lines") { rq = "GET / HTTP/1.1\r\nHost: a\r\n\r\n"; for (size_t i = 0; i < k; i++) rq += "zz\r\n"; rs = ok; }
+    else if (pat == "res_body_unexpected_lines") { rq = "GET / HTTP/1.1\r\nHost: a\r\n\r\n"; rs = ok; for (size_t i = 0; i < k; i++) rs += "zz\r\n"; }
+    else if (pat == "req_hdr_long_value") { rq = "GET / HTTP/1.1\r\nHost: a\r\nX-L: "; rq.append(std::min<size_t>(k, 17000), 'v'); rq += "\r\n\r\n"; rs = ok; }
+    else { rq = "GET / HTTP/1.1\r\nHost: a\r\n\r\n"; rs = ok; }
+}
+
+static void c08_plan(Rng &rng, Plan &p, uint64_t variant) {
+    p.prop = "C08"; p.scenario = "pump";
+    int pat = (int) (variant % C08_NPAT);
+    p.cfg.set("c08_pattern", pat);
+    p.cfg.set("c08_delivery", (long) ((variant / C08_NPAT) % 3));   // 0 whole, 1 one byte per call, 2 geometric chunks
+    p.cfg.set("c08_mean", (long) rng.range(2, 40));
+    p.cfg.set("personality", (long) rng.below(10));
+    p.cfg.set("log_level", 0);   // the message list is the caller's to drain; it is not part of the work bound
+    p.cfg.set("call_budget", 20000000000L);   // the ladder measures growth; the hang verdict of C01 is not wanted here
+    p.cfg.set("wellformed", 1);
+    p.conns.resize(1);
+}
+
+struct C08Point { size_t k; double ticks, work, ratio; double worst_call; size_t bytes; };
+
+static C08Point c08_measure(const Plan &p, size_t k, RunResult &r) {
+    std::string pat = C08_PATTERNS[p.cfg.get("c08_pattern", 0) % C08_NPAT];
+    Plan q = p; q.conns.resize(1);
+    c08_streams(pat, k, q.conns[0].stream[0], q.conns[0].stream[1]);
+    long del = p.cfg.get("c08_delivery", 0);
+    Rng rng(p.seed ^ (uint64_t) k);
+    for (int d = 0; d < 2; d++) {
+        const Bytes &s = q.conns[0].stream[d]; size_t pos = 0;
+        while (pos < s.size()) {
+            size_t n = del == 0 ? s.size() : del == 1 ? 1 : std::min(s.size() - pos, rng.geom((size_t) p.cfg.get("c08_mean", 8)));
+            Op op; op.kind = d ? 'S' : 'Q'; op.n = (long) n; q.ops.push_back(op); pos += n;
+        }
+    }
+    execute_plan(q, r);
+    C08Point pt; pt.k = k; pt.ticks = 0; pt.work = 0; pt.worst_call = 0; pt.bytes = q.conns[0].stream[0].size() + q.conns[0].stream[1].size();
+    for (auto &c : r.calls) {
+        double w = (double) c.len + (double) c.buffered_before + 1.0; pt.ticks += (double) c.ticks; pt.work += w;
+        // per call: work may also be proportional to what the current message has brought so far (finalisation of parameters, cookies, parts)
+        double pc = (double) c.ticks / (w + (double) c.msg_bytes_before); if (pc > pt.worst_call) pt.worst_call = pc;
+    }
+    pt.ratio = pt.work > 0 ? pt.ticks / pt.work : 0;
+    return pt;
+}
+
+static void eval_c08(const Plan &p, Verdict &v, Agg *agg) {
+    std::string pat = C08_PATTERNS[p.cfg.get("c08_pattern", 0) % C08_NPAT];
+    long del = p.cfg.get("c08_delivery", 0);
+    size_t kmax = del == 1 ? 4096 : 8192;
+    if (getenv("VERIF_TIER") && !strcmp(getenv("VERIF_TIER"), "thorough")) kmax *= 2;
+    std::vector<C08Point> pts;
+    for (size_t k = 64; k <= kmax; k *= 2) {
+        RunResult r; C08Point pt = c08_measure(p, k, r); pts.push_back(pt); v.executions++;
+        if (agg) agg->add_run(r);
+        v.sig = r.behaviour_sig ^ (uint64_t) p.cfg.get("c08_pattern", 0) * 1315423911u; v.hash = r.hash;
+        for (auto &x : r.viol) if (x.prop == "C01") { v.violated = true; v.oracle = "C08.via." + x.oracle; v.detail = x.detail; return; }
+    }
+    v.nontrivial = true;
+    const C08Point &lo = pts.front(), &hi = pts.back();
+    std::string trace; for (auto &pt : pts) trace += strfmt(" k=%zu:%.1f", pt.k, pt.ratio);
+    if (agg) agg->inc("c08.pattern." + pat);
+    if (getenv("VERIF_C08_TRACE")) printf("C08TRACE %s delivery=%ld%s worst_call=%.0f\n", pat.c_str(), del, trace.c_str(), hi.worst_call);
+    // (a) work per allowed unit must not grow along the ladder: quadratic behaviour doubles it at every step (x128 over 7 steps)
+    if (hi.ratio > 3.0 * lo.ratio && hi.ratio > 40.0) { v.violated = true; v.oracle = "C08.superlinear." + pat; v.detail = strfmt("delivery=%ld ticks per unit of allowed work:%s", del, trace.c_str()); return; }
+    // (b) no single call may cost more than a constant per byte given or buffered (constants: 8x the maxima measured on the pinned tree)
+    double A = 100.0;
+    for (auto &pt : pts) if (pt.worst_call > A * 8) { v.violated = true; v.oracle = "C08.call_cost." + pat; v.detail = strfmt("delivery=%ld k=%zu: %.0f ticks per byte given or buffered in one call", del, pt.k, pt.worst_call); return; }
+}
+
+// ================================================================================================
 // Scenario: C11 ambiguity indicators (trigger applied by the actor => flag must be set)
 // ================================================================================================
 
@@ -1045,11 +1155,16 @@ std::string plan_trigger(const Plan &p) {
         // a body announced as gzip/deflate that is not compressed and too short for the decoder to reject before the stream ends
         if ((cod == 9 || cod == 10) && body && body->size() < 5) return "c07.short_plain_body_announced_as_compressed";
     }
+    if (p.prop == "C08") {
+        std::string pat = C08_PATTERNS[p.cfg.get("c08_pattern", 0) % C08_NPAT];
+        // many header lines with pairwise distinct names: every line is looked up linearly in the table of all earlier ones
+        if (pat == "req_hdr_distinct" || pat == "res_hdr_distinct") return "c08.distinct_header_names";
+    }
     return "";
 }
 
 bool is_known_property(const std::string &prop) {
-    static const char *P[] = {"C01", "C02", "C03", "C04", "C05", "C06", "C07", "C09", "C10", "C11", "C14", "C15", "C16"};
+    static const char *P[] = {"C01", "C02", "C03", "C04", "C05", "C06", "C07", "C08", "C09", "C10", "C11", "C14", "C15", "C16"};
     for (auto q : P) if (prop == q) return true;
     return false;
 }
@@ -1064,6 +1179,7 @@ bool generate_plan(const std::string &prop, uint64_t seed, Plan &out) {
     else if (prop == "C11") c11_plan(rng, out, seed);
     else if (prop == "C16") c16_plan(rng, out);
     else if (prop == "C15") c15_plan(rng, out);
+    else if (prop == "C08") c08_plan(rng, out, seed);
     else if (prop == "C14") c14_plan(rng, out);
     else if (prop == "C07") { if (seed % 4 == 3) { chaos_plan(rng, out, "C07"); out.cfg.set("res_decomp", 1); if (rng.coin()) { static const long B[] = {1024, 4096, 65536}; out.cfg.set("bomb_limit", B[rng.below(3)]); } } else c07_plan(rng, out, seed / 4); }
     else return false;
@@ -1143,6 +1259,7 @@ Verdict evaluate_plan(const Plan &p, Agg *agg) {
         return v;
     }
     if (prop == "C15") { eval_c15(p, v, agg); return v; }
+    if (prop == "C08") { eval_c08(p, v, agg); return v; }
     if (prop == "C14") { eval_c14(p, v, agg); return v; }
     if (prop == "C07") {
         RunResult r; execute_plan(p, r); note_run(r, p, v, agg);
